@@ -304,6 +304,85 @@ def rule_families(chk, ci):
     chk.floor('family inlet/outlet classes', n, 10)
 
 
+PA = 'pysph/base/particle_array.pyx'
+
+
+def rule_alignment(chk):
+    """remove_particles / extract + align_particles must not duplicate or lose a particle: align_particles builds its index array by
+    insert-with-displacement, which keeps index[0..i] a permutation of 0..i iff on every path through the loop body position i is filled
+    exactly once, with i itself or with the value displaced from the slot that received i"""
+    t = M.cy(PA)
+    cls = M.find_class(t, 'ParticleArray')
+    fn = M.find_func(cls, 'align_particles')
+    who = 'ParticleArray.align_particles'
+    loops = [l for l in ast.walk(fn) if isinstance(l, ast.For) and any(isinstance(a, ast.Assign) and isinstance(a.targets[0], ast.Subscript) and
+                                                                       compact(a.targets[0].value) == 'index_array.data' for a in ast.walk(l))]
+    if len(loops) != 1 or not isinstance(loops[0].target, ast.Name):
+        raise AnalysisError('align_particles: expected one loop filling index_array')
+    loop = loops[0]
+    iv = loop.target.id
+    chk.decide(compact(loop.iter) in ('range(num_particles)',), 'alignment-is-a-permutation', 'loop-covers-all-particles', node=loop, file=PA, func=who,
+               detail_bad='the fill loop does not visit every particle', detail_ok='for %s in range(num_particles)' % iv)
+    paths = []
+
+    def walk(stmts, ev):
+        for k, s in enumerate(stmts):
+            if isinstance(s, ast.If):
+                rest = stmts[k + 1:]
+                walk(list(s.body) + rest, ev + [('cond', compact(s.test), True)])
+                walk(list(s.orelse) + rest, ev + [('cond', compact(s.test), False)])
+                return
+            if isinstance(s, ast.Assign) and isinstance(s.targets[0], ast.Subscript) and compact(s.targets[0].value) == 'index_array.data':
+                ev = ev + [('store', compact(s.targets[0].slice), compact(s.value), s)]
+            elif isinstance(s, ast.Assign) and isinstance(s.value, ast.Subscript) and compact(s.value.value) == 'index_array.data':
+                ev = ev + [('load', compact(s.targets[0]), compact(s.value.slice), s)]
+            elif isinstance(s, ast.AugAssign):
+                ev = ev + [('inc', compact(s.target), compact(s.value), s)]
+            elif isinstance(s, (ast.For, ast.While, ast.Return, ast.Break, ast.Continue)):
+                raise AnalysisError('align_particles: unexpected control flow in the fill loop')
+        paths.append(ev)
+    walk(list(loop.body), [])
+    n = 0
+    for ev in paths:
+        stores = [e for e in ev if e[0] == 'store']
+        conds = [(e[1], e[2]) for e in ev if e[0] == 'cond']
+        incs = dict((e[1], e[2]) for e in ev if e[0] == 'inc')
+        label = ' and '.join(('' if v else 'not ') + c for c, v in conds) or 'always'
+        n += 1
+        local = ('tag_arr.data[%s]==Local' % iv, True) in conds
+        at_i = [e for e in stores if e[1] == iv]
+        other = [e for e in stores if e[1] != iv]
+        node = stores[-1][3] if stores else loop
+        if len(at_i) == 1 and not other and at_i[0][2] == iv:
+            ok, why = True, 'index[%s] = %s' % (iv, iv)
+        elif len(at_i) == 1 and len(other) == 1 and other[0][2] == iv:
+            j = other[0][1]
+            order = [e for e in ev if e[0] in ('load', 'store')]
+            ld = [e for e in order if e[0] == 'load' and e[2] == j and e[1] == at_i[0][2]]
+            ok = bool(ld) and order.index(ld[0]) < order.index(other[0]) and (('%s!=%s' % (iv, j), True) in conds or ('%s==%s' % (iv, j), False) in conds)
+            why = 'index[%s] = %s; index[%s] = the value displaced from slot %s (guarded by %s != %s)' % (j, iv, iv, j, iv, j)
+            node = at_i[0][3]
+        else:
+            ok, why = False, ''
+        chk.decide(ok, 'alignment-is-a-permutation', 'path:%s' % label, node=node, file=PA, func=who,
+                   detail_bad='on this path the stores %s do not fill slot %s with %s itself or with the value previously held by the slot that receives %s: the index array stops being a '
+                              'permutation, so c_align_array duplicates one particle and drops another' % ([(e[1], e[2]) for e in stores], iv, iv, iv), detail_ok=why)
+        if local:
+            chk.decide(incs.get('next_insert') == '1' and incs.get('num_real_particles') == '1' and (not other or incs.get('num_moves') == '1'), 'alignment-is-a-permutation',
+                       'counters:%s' % label, node=node, file=PA, func=who, detail_bad='a Local particle must advance next_insert and num_real_particles (and num_moves when displaced): %s' % incs,
+                       detail_ok=str(sorted(incs.items())))
+        else:
+            chk.decide('next_insert' not in incs and 'num_real_particles' not in incs, 'alignment-is-a-permutation', 'counters:%s' % label, node=node, file=PA, func=who,
+                       detail_bad='a non-Local particle must not advance the insertion point', detail_ok='no counter moves')
+    chk.floor('paths through the alignment fill loop', n, 3)
+    post = [s for s in fn.body if getattr(s, 'lineno', 0) > loop.lineno]
+    al = [c for s in post for c in M.calls(s) if isinstance(c.func, ast.Attribute) and c.func.attr == 'c_align_array']
+    lp = [M.enclosing(c, ast.For) for c in al]
+    ok = len(al) == 1 and [compact(a) for a in al[0].args] == ['index_array', 'stride'] and lp[0] is not None and compact(lp[0].iter) == 'self.properties.items()'
+    chk.decide(ok, 'alignment-is-a-permutation', 'applied-to-every-property', node=al[0] if al else fn, file=PA, func=who,
+               detail_bad='the permutation must be applied to every property with its stride', detail_ok='for every property: c_align_array(index_array, stride)')
+
+
 def main(chk):
     chk.explanation = ('For every update() of the inlet/outlet classes (the two bases and every override in the five families): zone ids are '
                        'refreshed before they are read (dominance); inlet: the set with ioid == 0 is copied inlet -> fluid exactly once and that '
@@ -324,6 +403,7 @@ def main(chk):
                    detail_bad='update is not restricted to the active stages', detail_ok='if stage in self.active_stages')
     rule_zone_codes(chk)
     rule_families(chk, ci)
+    rule_alignment(chk)
     chk.assume('exactly-once over arbitrary runs and velocity fields (particles crossing and returning within a step) is not decided')
     chk.assume('ParticleArray.extract_particles / remove_particles copy and delete whole particles (C06)')
 
